@@ -62,21 +62,30 @@ Definition half_factor (a : bool) (corr dh dav : Q) (cur other : cell) : Q * Q :
   let base := if a then disp_part dav' else 0 in
   ((base + diff_part dh cur other) * corr, dav').
 
-(* for (i = 1; i <= count_cells; i++) { if (i < count_cells) {...m1[i]...} if (i > 1) {...m[i]...} } *)
+(* for (i = 1; i <= count_cells; i++) { if (i < count_cells) {...m1[i]...} if (i > 1) {...m[i]...} }
+   up_factor: the block for the higher numbered neighbour (absent for the last cell),
+   lo_factor: the block for the lower numbered neighbour (absent for the first cell);
+   both return (factor, dav after the block). *)
+Definition up_factor (a : bool) (corr dh dav : Q) (cur : cell) (rest : list cell) : Q * Q :=
+  match rest with
+  | nx :: _ => half_factor a corr dh dav cur nx
+  | [] => (0, dav)
+  end.
+
+Definition lo_factor (a : bool) (corr dh dav : Q) (cur : cell) (prev : option cell) : Q * Q :=
+  match prev with
+  | Some pv => half_factor a corr dh dav cur pv
+  | None => (0, dav)
+  end.
+
 Fixpoint inner (a : bool) (corr dh : Q) (prev : option cell) (cs : list cell) (dav : Q)
   : list (Q * Q) :=
   match cs with
   | [] => []
   | cur :: rest =>
-      let '(m1, dav1) := match rest with
-                         | nx :: _ => half_factor a corr dh dav cur nx
-                         | [] => (0, dav)
-                         end in
-      let '(m, dav2) := match prev with
-                        | Some pv => half_factor a corr dh dav1 cur pv
-                        | None => (0, dav1)
-                        end in
-      (m, m1) :: inner a corr dh (Some cur) rest dav2
+      let u := up_factor a corr dh dav cur rest in
+      let l := lo_factor a corr dh (snd u) cur prev in
+      (fst l, fst u) :: inner a corr dh (Some cur) rest (snd l)
   end.
 
 Definition sum2 (p : Q * Q) : Q := fst p + snd p.
@@ -130,17 +139,18 @@ Definition mixf (c : cfg) : Z * list (Q * Q) :=
   let '(raw, mx) := raw_mix c in
   let n := nmix_of c mx in
   if Z.eqb n 0 then (0%Z, raw)
-  else (n, map (fun p => (fst p / inject_Z n, snd p / inject_Z n)) raw).
+  else (n, map (fun p => (Qred (fst p / inject_Z n), Qred (snd p / inject_Z n))) raw).
 
 (* ------------------------------------------------------------------ one mix run (Jacobi) *)
 
 (* run_reactions(i, DISP): new_i = m_i * c_{i-1} + (1 - m_i - m1_i) * c_i + m1_i * c_{i+1};
-   every cell uses the OLD neighbours (results parked in solution -2 and copied back one cell late) *)
+   every cell uses the OLD neighbours (results parked in solution -2 and copied back one cell late).
+   Qred only normalises the representation of the rational (Qred x == x); it keeps evaluation fast. *)
 Fixpoint mix_aux (prev : Q) (ms : list (Q * Q)) (cs : list Q) (cR : Q) : list Q :=
   match ms, cs with
   | (m, m1) :: ms', c :: cs' =>
       let next := match cs' with [] => cR | c' :: _ => c' end in
-      (m * prev + (1 - m - m1) * c + m1 * next) :: mix_aux c ms' cs' cR
+      Qred (m * prev + (1 - m - m1) * c + m1 * next) :: mix_aux c ms' cs' cR
   | _, _ => []
   end.
 
@@ -173,9 +183,16 @@ Definition one_shift (c : cfg) (nmix : Z) (ms : list (Q * Q)) (cL cR : Q) (cs : 
   let cs2 := advect (ishift c) cL cR cs1 in
   iter (Z.to_nat nmix - pre) (mix_step ms cL cR) cs2.
 
+(* readtr.cpp: read_transport, "Check boundary conditions":
+   if ((ishift != 0) && ((bcon_first == 2) || (bcon_last == 2))) { closed -> flux } *)
+Definition fix_bc (a : bool) (b : Z) : Z := if a && Z.eqb b 2 then 3%Z else b.
+Definition read_bc (c : cfg) : cfg :=
+  mkCfg (cells c) (diffc c) (timest c) (ishift c) (fix_bc (adv c) (bcf c)) (fix_bc (adv c) (bcl c)) (corrd c).
+
 (* state after k shifts *)
 Definition transport (c : cfg) (cL cR : Q) (k : nat) (cs : list Q) : list Q :=
-  let '(n, ms) := mixf c in iter k (one_shift c n ms cL cR) cs.
+  let c' := read_bc c in
+  let '(n, ms) := mixf c' in iter k (one_shift c' n ms cL cR) cs.
 
 (* column inventory of a tracer *)
 Definition total (cs : list Q) : Q := fold_right Qplus 0 cs.
